@@ -56,6 +56,8 @@ Inductive op :=
 | OBind (w : positive) (id : Z) (key : bool) (mask : Z) (ret : bool) (actions : list op)
 | OUnbind (w : positive) (id : Z)          (* tickit_window_unbind_event_id of the handler bound as number [id] *)
 | OGeom (w : positive)                     (* tickit_window_set_geometry to a different size: GEOMCHANGE runs on w *)
+| OTouch (w : positive) (j : ptr) (walk : bool)   (* a call that only reads window [w] (and [j]): tickit_window_set_pen / get_pen;
+                                                     with [walk]: tickit_window_scrollrect, which also walks from [w] to the root *)
 | ONop
 (* not client calls: the reference a dispatch frame of the library takes on the window it works on, and its
    release.  The dispatch functions write them into the trace, so that a discipline can tell the client's
@@ -809,6 +811,30 @@ Fixpoint count_up (fuel : nat) (w : ptr) : M unit :=
   | S f => match w with None => ret tt | Some a => c <- getw a ;; count_up f (w_parent c) end
   end.
 
+(* _scrollrectset: while(win) { if(!win->is_visible) return; parent = win->parent; if(!parent) break;
+     for(sib = parent->first_child; sib; sib = sib->next) { if(sib == win) break; ... }  win = parent; }
+   then WINDOW_AS_ROOT(win) *)
+Fixpoint sib_walk (fuel : nat) (k : ptr) (a : positive) : M unit :=
+  match fuel with
+  | O => nofuel
+  | S f =>
+    match k with
+    | None => ret tt
+    | Some s => if Pos.eqb s a then ret tt else cs <- getw s ;; sib_walk f (w_next cs) a
+    end
+  end.
+Fixpoint scroll_up (fuel : nat) (a : positive) : M unit :=
+  match fuel with
+  | O => nofuel
+  | S f =>
+    c <- getw a ;;
+    if negb (w_visible c) then ret tt
+    else match w_parent c with
+         | None => getr a ;;; ret tt
+         | Some p => cp <- getw p ;; sib_walk f (w_first cp) a ;;; scroll_up f p
+         end
+  end.
+
 Definition root_bound : M bool := fun h => Ok (PM.mem 1%positive (wins h)) h.
 
 Definition handler_fires_mouse (h : handler) (t : mtype) : bool :=
@@ -839,6 +865,9 @@ Fixpoint run_op (fuel : nat) (o : op) {struct fuel} : M unit :=
     | OBind w id k m r acts => upd w (fun c => set_hs c (w_hs c ++ [mkH id k m r acts]))
     | OUnbind w id => upd w (fun c => set_hs c (filter (fun hd => negb (h_id hd =? id)) (w_hs c)))
     | OGeom w => getw w ;;; ret tt
+    | OTouch w j walk =>
+      getw w ;;; (match j with Some a => getw a ;;; ret tt | None => ret tt end) ;;;
+      if walk then scroll_up f w else ret tt
     | ONop => ret tt
     | OFrameRef _ | OFrameUnref _ => ret tt      (* not calls: in a script they do nothing and leave no trace *)
     end
